@@ -65,6 +65,7 @@ class CacheDriver:
         self.culled_expired = 0
         self.evicted = 0
         self.shard_of = {}       # ident -> shard index (routing must be stable)
+        self.block = None        # state of an open transaction block (C06)
 
     def close(self):
         for o in self.observers:
@@ -138,7 +139,16 @@ class CacheDriver:
         expected = getattr(mdl, 'op_' + op)(*margs, **kw)
         rows, sets = self.dump()
         self.removed_by_policy = 0
-        self._reconcile(op, args, kw, rows, sets, reads)
+        if self.block is not None:
+            # inside a transaction block: other connections must still see the pre-block state
+            self.block['ops'] += 1
+            if mdl.culling:
+                self.block['culls'] += 1
+            if (rows, sets) != (self.block['rows'], self.block['sets']):
+                raise Mismatch('effects of an open transaction block are visible to another connection (after %s)' % op,
+                               self.witness())
+        else:
+            self._reconcile(op, args, kw, rows, sets, reads)
         if op == 'cull' and not isinstance(expected, M.Raised):
             expected = expected + self.removed_by_policy
         # outcome
@@ -147,7 +157,7 @@ class CacheDriver:
         elif not M.result_matches(expected, got[0], got[1]):
             raise Mismatch('%s returned %r, reference says %r' % (op, got, expected),
                            self.witness(extra={'got': got, 'expected': expected}))
-        if self.check_invariant:
+        if self.check_invariant and self.block is None:
             for d in self.shard_dirs:
                 problems = observe.invariant(d)
                 if problems:
@@ -165,11 +175,48 @@ class CacheDriver:
         worst = None
         for it in self.model.items:
             e = it.expire
-            if e is not None and type(e) is not tuple and now <= e <= hi:
+            if e is not None and now <= e <= hi:
                 worst = e if worst is None or e > worst else worst
         if worst is not None:
             self.clock.advance(worst - now + 2 * self.clock.TICK)
             self.window_avoided = getattr(self, 'window_avoided', 0) + 1
+
+    # ------------------------------------------------------------ blocks (C06)
+    def begin_block(self):
+        rows, sets = self.dump()
+        self.block = {'rows': rows, 'sets': sets, 'snap': self.model.snapshot(), 'ops': 0, 'culls': 0,
+                      'files': [observe.list_files(d)[0] for d in self.shard_dirs]}
+        self.history.append(('BEGIN-BLOCK', (), {}))
+
+    def end_block(self, committed):
+        blk, self.block = self.block, None
+        mdl = self.model
+        self.history.append(('COMMIT-BLOCK' if committed else 'ABORT-BLOCK', (), {}))
+        rows, sets = self.dump()
+        if committed:
+            mdl.culling = blk['culls'] > 0
+            mdl.cull_budget = mdl.cull_limit * max(blk['culls'], 1)
+            try:
+                self._reconcile('block', (), {}, rows, sets, list(mdl.reads))
+            finally:
+                mdl.cull_budget = None
+        else:
+            mdl.restore(blk['snap'])
+            if rows != blk['rows']:
+                diff = [(a, b) for a, b in zip(rows, blk['rows']) if a != b][:3]
+                raise Mismatch('aborted block changed the table: %d rows before, %d after; first differences %r' % (
+                    len(blk['rows']), len(rows), diff), self.witness())
+            if sets != blk['sets']:
+                raise Mismatch('aborted block changed Settings: %r -> %r' % (
+                    {k: v for k, v in blk['sets'][0].items() if k in ('count', 'size', 'hits', 'misses')},
+                    {k: v for k, v in sets[0].items() if k in ('count', 'size', 'hits', 'misses')}), self.witness())
+        if self.check_invariant:
+            for d in self.shard_dirs:
+                problems = observe.invariant(d)
+                if problems:
+                    raise Mismatch('structural invariant broken after %s block: %s' % (
+                        'committed' if committed else 'aborted', problems[:3]),
+                        self.witness(extra={'problems': problems[:10]}))
 
     def witness(self, extra=None, tail=25):
         w = {'config': self.cfg, 'kind': self.kind, 'shards': self.shards,
@@ -231,15 +278,13 @@ class CacheDriver:
         for it in mdl.items:
             row = seen[it.id]
             e = it.expire
-            if type(e) is tuple:    # ('ttl', x): resolve against the reads of this op
-                ok = any(row['expire_time'] == r + e[1] for r in reads)
-                if not ok:
-                    raise Mismatch('expire_time %r of %r is not (a clock read of %s) + %r' % (
-                        row['expire_time'], it.key, op, e[1]), self.witness(extra={'reads': reads}))
-                it.expire = row['expire_time']
-            elif e != row['expire_time']:
-                raise Mismatch('expire_time of %r is %r, reference says %r (after %s)' % (
-                    it.key, row['expire_time'], e, op), self.witness())
+            if e != row['expire_time']:
+                if it.expire_alt is not None and row['expire_time'] in it.expire_alt[1]:
+                    it.expire = row['expire_time']     # another clock read of the storing call + ttl
+                else:
+                    raise Mismatch('expire_time of %r is %r, reference says %r (after %s)' % (
+                        it.key, row['expire_time'], e, op), self.witness(extra={'reads': reads}))
+            it.expire_alt = None
             tag = row['tag']
             if isinstance(tag, memoryview):
                 tag = bytes(tag)
@@ -269,8 +314,8 @@ class CacheDriver:
         expired, other = [], []
         for it in missing:
             e = it.expire
-            if type(e) is tuple:
-                is_exp = e[1] <= 0
+            if it.expire_alt is not None:
+                is_exp = it.expire_alt[0] <= 0        # stored by this very call with a non-positive ttl
             else:
                 is_exp = e is not None and t1 is not None and e < t1
             (expired if is_exp else other).append(it)
@@ -278,7 +323,7 @@ class CacheDriver:
         for it in missing:
             sh = self.shard_of.get(it.id, 0)
             per_shard[sh] = per_shard.get(sh, 0) + 1
-        limit = mdl.cull_limit
+        limit = getattr(mdl, 'cull_budget', None) or mdl.cull_limit
         if not mdl.explicit_cull and any(n > limit for n in per_shard.values()):
             raise Mismatch('%s removed %d items in one shard, cull_limit is %d' % (op, max(per_shard.values()), limit),
                            self.witness(extra={'removed': [it.key for it in missing][:20]}))
